@@ -8,8 +8,22 @@ func init() {
 		Title: "Subscription teardown is safe under every interleaving",
 		Kernels: []Kernel{
 			{Name: "teardown-all-interleavings", Pkg: ".", Files: files, Entry: "VerifTeardown", Mode: "all", Race: true,
-				Quick: map[string]int{"maxsteps": 1, "maxevents": 1, "ticks": 0, "slim": 1}, Thorough: map[string]int{"maxsteps": 2, "maxevents": 1, "ticks": 0, "slim": 1, "pin_first": 0, "budget_s": 10000},
+				Quick: map[string]int{"maxsteps": 1, "maxevents": 1, "ticks": 0, "slim": 1}, Thorough: map[string]int{"maxsteps": 1, "maxevents": 1, "ticks": 0, "slim": 0},
 				Reach: []string{"handler returned"}, Functions: fns},
+			// two client messages: start followed by each kind of second message, one slice per kernel
+			// (the unsliced exploration exceeded the 62 GB of this machine)
+			{Name: "teardown-start-then-stop", Pkg: ".", Files: files, Entry: "VerifTeardown", Mode: "all", Race: true, ThoroughOnly: true,
+				Thorough: map[string]int{"maxsteps": 2, "maxevents": 1, "ticks": 0, "slim": 1, "pin_first": 0, "pin_second": 1, "budget_s": 3000},
+				Reach:    []string{"handler returned"}, Functions: fns},
+			{Name: "teardown-start-then-terminate", Pkg: ".", Files: files, Entry: "VerifTeardown", Mode: "all", Race: true, ThoroughOnly: true,
+				Thorough: map[string]int{"maxsteps": 2, "maxevents": 1, "ticks": 0, "slim": 1, "pin_first": 0, "pin_second": 3, "budget_s": 3000},
+				Reach:    []string{"handler returned"}, Functions: fns},
+			{Name: "teardown-start-then-second-start", Pkg: ".", Files: files, Entry: "VerifTeardown", Mode: "all", Race: true, ThoroughOnly: true,
+				Thorough: map[string]int{"maxsteps": 2, "maxevents": 1, "ticks": 0, "slim": 1, "pin_first": 0, "pin_second": 6, "budget_s": 3000},
+				Reach:    []string{"handler returned"}, Functions: fns},
+			{Name: "teardown-start-then-ignored-message", Pkg: ".", Files: files, Entry: "VerifTeardown", Mode: "all", Race: true, ThoroughOnly: true,
+				Thorough: map[string]int{"maxsteps": 2, "maxevents": 1, "ticks": 0, "slim": 1, "pin_first": 0, "noise_second": 1, "budget_s": 3000},
+				Reach:    []string{"handler returned"}, Functions: fns},
 			{Name: "heartbeat-vs-listener", Pkg: ".", Files: files, Entry: "VerifTeardown", Mode: "all", Race: true,
 				Quick:    map[string]int{"maxsteps": 1, "maxevents": 1, "ticks": 1, "pin_client": 0, "pin_upend": 3, "pin_events": 1},
 				Thorough: map[string]int{"maxsteps": 1, "maxevents": 1, "ticks": 1, "pin_client": 0, "slim": 1, "stitched": 1, "budget_s": 10000},
